@@ -308,11 +308,11 @@ theorem lookup_filter_some (kvs : List (String × Val)) (a : String) (v : Val) (
     by_cases hk : k = a
     · simp only [hk, if_true, Option.some.injEq] at h
       subst h
-      simp [List.filter_cons, hv, lookup, hk]
+      simp [hv, lookup, hk]
     · simp only [hk, if_false] at h
       cases hw : w.isNull
-      · simp [List.filter_cons, hw, lookup, hk, ih h]
-      · simp [List.filter_cons, hw, ih h]
+      · simp [hw, lookup, hk, ih h]
+      · simp [hw, ih h]
 
 theorem lookup_append_some (a : String) (l r : List (String × Val)) (v : Val) (h : lookup a l = some v) :
     lookup a (l ++ r) = some v := by
